@@ -121,8 +121,14 @@ Definition output_md_r (c : cfg) (input : str) (k : option nat) : list chunk * r
 
 Definition output_md (c : cfg) (input : str) : list chunk * res unit := output_md_r c input None.
 
+(* the encoding options only select an output format: every entry point other than Output*
+   works with the default grower (after the repair of D23) *)
+Definition no_enc (c : cfg) : cfg :=
+  {| c_bf := c_bf c; c_enc := EncDefault; c_dry := c_dry c; c_exts := c_exts c; c_noiter := c_noiter c |}.
+
 (* treeSimple.walk *)
-Definition walk_md (c : cfg) (cb : nat -> bool) (input : str) : list visit * res unit :=
+Definition walk_md (c0 : cfg) (cb : nat -> bool) (input : str) : list visit * res unit :=
+  let c := no_enc c0 in
   match gen_all input with
   | Err e => ([], Err e)
   | Panic => ([], Panic)
